@@ -4,7 +4,12 @@ from oracles.c06 import _f
 
 LINES = [(55, 300000.0, 6200000.0, 55, 320000.0, 6230000.0), (55, 450000.0, 6000000.0, 55, 550000.0, 6000100.0), (55, 480000.0, 3000000.0, 55, 520000.0, 3000000.0),
          (55, 200000.0, 8000000.0, 55, 200050.0, 8000001.0), (50, 700000.0, 7500000.0, 50, 790000.0, 7450000.0), (55, 780000.0, 6100000.0, 56, 225000.0, 6105000.0),
-         (31, 500000.0, 5000000.0, 31, 500000.0, 5099000.0), (31, 160000.0, 2200000.0, 31, 255000.0, 2230000.0)]
+         (31, 500000.0, 5000000.0, 31, 500000.0, 5099000.0), (31, 160000.0, 2200000.0, 31, 255000.0, 2230000.0),
+         # lines within the convergence angle of grid north / true north on either side of the central meridian, both directions
+         # (azimuth + convergence passes through 0 / 360 there)
+         (55, 300000.0, 6200000.0, 55, 299905.0, 6205000.0), (55, 300000.0, 6200000.0, 55, 300095.0, 6205000.0),
+         (55, 700000.0, 6200000.0, 55, 699905.0, 6205000.0), (55, 700000.0, 6200000.0, 55, 700095.0, 6205000.0),
+         (55, 299905.0, 6205000.0, 55, 300000.0, 6200000.0), (55, 700095.0, 6205000.0, 55, 700000.0, 6200000.0)]
 
 
 def _hemis(a):
